@@ -333,13 +333,18 @@ func (g *Gen) editSimple(x *Simple) string {
 				return "default.del"
 			}
 			if x.Items != nil && x.Items.Type != "array" {
-				x.Default.L = append(x.Default.L, g.scalarDefault(x.Items.Type))
-				return "default.change"
+				if e := g.validDefault(x.Items); e.Kind != 0 {
+					x.Default.L = append(x.Default.L, e)
+					return "default.change"
+				}
 			}
 			return ""
 		}
 		if x.Default.Kind == 0 {
-			x.Default = g.scalarDefault(x.Type)
+			x.Default = g.validDefault(x)
+			if x.Default.Kind == 0 {
+				return ""
+			}
 			return "default.add"
 		}
 		if g.R.Chance(1, 2) {
@@ -612,6 +617,18 @@ func (g *Gen) Mutate(sp *Spec) string {
 		}
 		if kind == "" {
 			return ""
+		}
+		// compound edit: a second change at the very same site
+		if st.param == nil && g.R.Chance(1, 3) {
+			var k2 string
+			if st.schema != nil && st.schema.Ref == "" {
+				k2 = g.editVals(&st.schema.V, firstType(st.schema))
+			} else if st.simple != nil {
+				k2 = g.editVals(&st.simple.V, st.simple.Type)
+			}
+			if k2 != "" {
+				kind += "+" + k2
+			}
 		}
 		return kind + "@" + st.where
 	}
